@@ -367,6 +367,7 @@ class Sim:
         self.utf8_by_type = False
         self.structural_box = False
         self.structural_vec = False
+        self._tyenv = [{}]      # per inlined frame: the frame's type parameters -> the types they stand for
         self.statics = {}
         self.adts = {}
         for c in crates:
@@ -1066,6 +1067,20 @@ class Sim:
                 t["callee"] = {"path": fv.path, "resolved": fv.path, "resolved_kind": "Item",
                                "crate": tgt.crate if tgt is not None else None,
                                "resolved_crate": tgt.crate if tgt is not None else None}
+        c0 = t["callee"]
+        if c0.get("trait") and "resolved" not in c0 and c0.get("substs") and self._tyenv[-1]:
+            # a trait method called on a type parameter (`A::expect(self)`), inside a function inlined with a concrete
+            # argument for it: the impl for that type
+            conc = self._tyenv[-1].get(c0["substs"][0])
+            if conc is not None:
+                for cr in self.crates:
+                    hit = [g for g in cr.fns if g.impl_trait == c0["trait"] and g.self_ty == conc
+                           and g.path.endswith("::" + c0.get("method", "?")) and g.kind != "closure"]
+                    if len(hit) == 1:
+                        t = dict(t)
+                        t["callee"] = dict(c0, resolved=hit[0].path, resolved_kind="Item", resolved_crate=cr.name,
+                                           resolved_dp=hit[0].d.get("dp"))
+                        break
         args = [self.operand(env, a, path) for a in t["args"]]
         names = F.callee_names(t)
         nxt = t.get("t")
@@ -1158,7 +1173,11 @@ class Sim:
         path.events.append(("enter", callee_fn.path, fn.path, bb))
         amap = {i + 1: a for i, a in enumerate(args)}
         n0 = len(path.memos)
-        sub = self._run_fn(callee_fn, amap, path, depth + 1)
+        self._tyenv.append(self._callee_tyenv(t, callee_fn))
+        try:
+            sub = self._run_fn(callee_fn, amap, path, depth + 1)
+        finally:
+            self._tyenv.pop()
         outs = []
         first = True
         for sp in sub:
@@ -1183,6 +1202,25 @@ class Sim:
                 outs.append((e, sp, None))
         return outs
 
+    def _callee_tyenv(self, t, callee_fn):
+        """Type parameters of the callee -> what the call site passes for them (through the caller's own bindings)."""
+        gens = callee_fn.d.get("generics")
+        c = t.get("callee", {})
+        subs = c.get("substs")
+        target = c.get("resolved") or c.get("path")
+        if not gens or not subs or len(gens) != len(subs) or target != callee_fn.path:
+            return {}
+        cur = self._tyenv[-1]
+        out = {}
+        for g, sv in zip(gens, subs):
+            if g.startswith("'"):
+                continue
+            sv = cur.get(sv, sv)
+            if sv != g or sv in cur:
+                out[g] = sv
+        # only bindings to something concrete help (a caller's own parameter name is still a parameter)
+        return out
+
     @staticmethod
     def _caller_env(env, sp, n0):
         """The caller's environment as the sub-path sp sees it: forks inside the callee copy everything in reach,
@@ -1198,7 +1236,11 @@ class Sim:
         path.events.append(("enter", callee_fn.path, fn.path, bb))
         amap = {i + 1: a for i, a in enumerate(args)}
         n0 = len(path.memos)
-        sub = self._run_fn(callee_fn, amap, path, depth + 1)
+        self._tyenv.append(self._callee_tyenv(t, callee_fn))
+        try:
+            sub = self._run_fn(callee_fn, amap, path, depth + 1)
+        finally:
+            self._tyenv.pop()
         outs = []
         first = True
         for sp in sub:
